@@ -143,6 +143,13 @@ static void sem_round(vf_rng_t *r)
 }
 
 /* ---------------- once edge ---------------- */
+/* the exported function dispatch_once_f — `(dispatch_once_f)(...)` does not reach it: once.h defines an
+ * object-like macro of that name that expands to the inline fast path */
+#pragma push_macro("dispatch_once_f")
+#undef dispatch_once_f
+static void vf_once_function(dispatch_once_t *p, void *c, dispatch_function_t f) { dispatch_once_f(p, c, f); }
+#pragma pop_macro("dispatch_once_f")
+
 typedef struct { dispatch_once_t *preds; rec_t *recs; int n; uint64_t salt; pthread_barrier_t bar; _Atomic int inits; int use_macro; } octx_t;
 typedef struct { octx_t *o; int i; } oinit_t;
 static void o_init(void *ctx)
@@ -158,12 +165,8 @@ static void *o_caller(void *arg)
 	pthread_barrier_wait(&o->bar);
 	for (int i = 0; i < o->n; i++) {
 		oinit_t oi = { o, i };
-#if VF_TSAN
-		(dispatch_once_f)(&o->preds[i], &oi, o_init);
-#else
-		if (o->use_macro) dispatch_once_f(&o->preds[i], &oi, o_init);
-		else (dispatch_once_f)(&o->preds[i], &oi, o_init);
-#endif
+		if (o->use_macro) { dispatch_once_f(&o->preds[i], &oi, o_init); vf_tso_acquire(&o->preds[i]); }
+		else vf_once_function(&o->preds[i], &oi, o_init);
 		if (!rec_ok(&o->recs[i], o->salt + (uint64_t)i)) {
 			vf_violation("C05:once-edge-not-visible", "dispatch_once returned but the initialiser's record %d is not visible", i);
 			break;
